@@ -1,0 +1,23 @@
+//go:build verif
+
+// Contracts for package binutils, checked by /verif (pverif). Comments only.
+
+package binutils
+
+//@ func symbolInfo.isData inline
+
+// The symbol table is sorted by address (nm --numeric-sort; assumption recorded in the evidence).
+//@ spec func symsorted(a *addr2LinerNM) bool = forall i int, j int :: 0 <= i && i < j && j < len(a.m) ==> a.m[i].address <= a.m[j].address
+
+//@ func addr2LinerNM.addrInfo arith bv
+//@   requires a != nil && symsorted(a)
+//@   ensures outside: (len(a.m) == 0 || addr < a.m[0].address || addr >= a.m[len(a.m)-1].address + a.m[len(a.m)-1].size) ==> len(result0) == 0 && result1 == nil
+//@   ensures noerr: result1 == nil
+//@   ensures greatest: len(result0) != 0 ==> len(result0) == 1 && exists low int :: 0 <= low && low < len(a.m)
+//@       && result0[0].Func == a.m[low].name && a.m[low].address <= addr
+//@       && (forall j int :: 0 <= j && j < len(a.m) && a.m[j].address <= addr ==> a.m[j].address <= a.m[low].address)
+//@   loop 1
+//@     invariant 0 <= low && low < high && high <= len(a.m)
+//@     invariant a.m[low].address <= addr
+//@     invariant high < len(a.m) ==> addr < a.m[high].address
+//@     decreases high - low
